@@ -158,6 +158,7 @@ def run(chk):
     from . import clones
     clones.rule_clones(chk, 'N1', floor=100)
     clones.rule_const_width(chk, 'N2', floor=100)
+    clones.rule_tables(chk, 'N5', None, floor=1000)
     run_r4(chk, P)
     # R3b shared with C20
     from . import c20
